@@ -206,6 +206,8 @@ pub struct Prob {
     pub b: Vec<f64>,
     pub cones: Vec<ConeSpec>,
     pub kind: ProbKind,
+    /// planted strictly feasible pair (x0, s0, z0), for Feasible problems
+    pub planted: Option<(Vec<f64>, Vec<f64>, Vec<f64>)>,
 }
 
 impl Prob {
@@ -285,7 +287,7 @@ fn pos(cs: &mut ChoiceStream, tag: &str) -> f64 {
     T[cs.choose(tag, 8) as usize]
 }
 
-fn interior_point(cs: &mut ChoiceStream, cone: &ConeSpec, dual: bool) -> Vec<f64> {
+pub fn interior_point(cs: &mut ChoiceStream, cone: &ConeSpec, dual: bool) -> Vec<f64> {
     match cone {
         ConeSpec::Zero(d) => {
             if dual {
@@ -581,6 +583,11 @@ pub fn gen_problem(cs: &mut ChoiceStream, o: &GenOpts) -> Prob {
         p_full
     };
     let p_triu = if extra_col { p_full.triu() } else { p_triu };
+    let planted = if kind == ProbKind::Feasible {
+        Some((x0.clone(), s0.clone(), z0.clone()))
+    } else {
+        None
+    };
 
     Prob {
         n: n_out,
@@ -592,6 +599,7 @@ pub fn gen_problem(cs: &mut ChoiceStream, o: &GenOpts) -> Prob {
         b,
         cones,
         kind,
+        planted,
     }
 }
 
